@@ -57,20 +57,20 @@ type Stmt struct {
 	Else []Stmt
 }
 
-func Hook() Stmt                     { return Stmt{Op: "hook"} }
-func Inc() Stmt                      { return Stmt{Op: "inc"} }
-func Set(c int) Stmt                 { return Stmt{Op: "set", C: c} }
-func GInc() Stmt                     { return Stmt{Op: "ginc"} }
-func Call(f int, a Arg) Stmt         { return Stmt{Op: "call", F: f, A: a} }
-func DeferHook() Stmt                { return Stmt{Op: "deferhook"} }
-func DeferCall(f int, a Arg) Stmt    { return Stmt{Op: "defercall", F: f, A: a} }
+func Hook() Stmt                      { return Stmt{Op: "hook"} }
+func Inc() Stmt                       { return Stmt{Op: "inc"} }
+func Set(c int) Stmt                  { return Stmt{Op: "set", C: c} }
+func GInc() Stmt                      { return Stmt{Op: "ginc"} }
+func Call(f int, a Arg) Stmt          { return Stmt{Op: "call", F: f, A: a} }
+func DeferHook() Stmt                 { return Stmt{Op: "deferhook"} }
+func DeferCall(f int, a Arg) Stmt     { return Stmt{Op: "defercall", F: f, A: a} }
 func DeferFunc(a Arg, b ...Stmt) Stmt { return Stmt{Op: "deferfunc", A: a, Body: b} }
-func Recover() Stmt                  { return Stmt{Op: "recover"} }
-func Panic() Stmt                    { return Stmt{Op: "panic"} }
-func Ret() Stmt                      { return Stmt{Op: "ret"} }
-func Forever(b ...Stmt) Stmt         { return Stmt{Op: "forever", Body: b} }
-func ForLt(c int, b ...Stmt) Stmt    { return Stmt{Op: "forlt", C: c, Body: b} }
-func For3(c int, b ...Stmt) Stmt     { return Stmt{Op: "for3", C: c, Body: b} }
+func Recover() Stmt                   { return Stmt{Op: "recover"} }
+func Panic() Stmt                     { return Stmt{Op: "panic"} }
+func Ret() Stmt                       { return Stmt{Op: "ret"} }
+func Forever(b ...Stmt) Stmt          { return Stmt{Op: "forever", Body: b} }
+func ForLt(c int, b ...Stmt) Stmt     { return Stmt{Op: "forlt", C: c, Body: b} }
+func For3(c int, b ...Stmt) Stmt      { return Stmt{Op: "for3", C: c, Body: b} }
 func IfMod(m, r int, then, els []Stmt) Stmt {
 	return Stmt{Op: "ifmod", M: m, C: r, Body: then, Else: els}
 }
@@ -87,8 +87,8 @@ type Program struct {
 }
 
 type builder struct {
-	p     *Program
-	extra [][]string // closures
+	p      *Program
+	extra  [][]string // closures
 	nNamed int
 }
 
